@@ -14,6 +14,12 @@ python3 - "$D/meta.json" "$ROOT/seeded/$NAME/meta.json" "$out" <<'PY'
 import json,sys
 m=json.load(open(sys.argv[1]))
 out=sys.argv[3]
+import os
+old={}
+if os.path.exists(sys.argv[2]):
+    try: old=json.load(open(sys.argv[2]))
+    except Exception: old={}
+if "first_result" in old: m["first_result"]=old["first_result"]
 m["breaks_property"]=m.get("property")
 m["confirmed_by_me"]={"demo_passes_on_clean_tree":"demo on clean tree: PASS" in out,"demo_fails_with_change":"demo with change: FAIL" in out,"existing_suite_passes_with_change":"existing suite with change: PASS" in out}
 det=[l.strip() for l in out.splitlines() if l.startswith("check ") or "signature:" in l or l.startswith("VIOLATION")]
